@@ -16,6 +16,7 @@ import (
 	"time"
 
 	"qmc/core"
+	"qmc/enum"
 )
 
 type Check struct {
@@ -101,6 +102,7 @@ func cmdWorker(args []string) int {
 		return 2
 	}
 	c := core.NewCtx(id, *tier, *seed, *shard, *nshards)
+	enum.SetSeed(*seed)
 	c.Only = *only
 	c.KFListed = map[string]bool{}
 	for _, f := range core.LoadKnownFindings() {
@@ -390,6 +392,7 @@ func cmdReplay(args []string) int {
 	}
 	fmt.Printf("replaying %s case %q (tier %s, seed %d) against the current /repo tree\n", doc.Property, doc.CaseID, doc.Tier, doc.Seed)
 	c := core.NewCtx(doc.Property, doc.Tier, doc.Seed, 0, 1)
+	enum.SetSeed(doc.Seed)
 	c.Only = doc.CaseID
 	c.KFListed = map[string]bool{}
 	chk.Fn(c)
